@@ -49,6 +49,7 @@ C03_Step == Judged /\ Op("INCMP") =>
               /\ (INMATCH \in Step.s.flags) = (INMATCH \in Post.flags)
               /\ (~Ev.last => Step.s.code = Post.code)
               /\ (Ev.last <=> Step.done)
+              /\ Step.s.bad = "" /\ Step.s.ext = <<>>          \* the code fetched is that of the node the move reached
 \* falling out of the code while reading input: invalid-input message showing that input, then the catch node
 C03_NoMatch == Judged /\ Running /\ (Step.s.errp.cls = "invalid" \/ Post.errp.cls = "invalid") /\ Step.s.errp # Pre.errp =>
               /\ Step.s.errp = Post.errp
@@ -57,6 +58,8 @@ C03_InmatchCleared == Judged /\ Running /\ WAIT \in Pre.flags /\ ~Op("INCMP") =>
 
 \* ---- C04: position follows the move table, at every step, for every instruction kind
 C04_Nav == Judged => NavProj(Post) \in {NavProj(a) : a \in Alts}
+\* ... and the code that continues the run is the code of the node that is on top afterwards
+C04_Code == Judged /\ Op("MOVE") => Step.s.bad = "" /\ Step.s.ext = <<>> /\ (~Ev.last => Step.s.code = Post.code)
 
 \* ---- C05: symbol lifetime; LOAD at most once while visible; RELOAD replaces; MAP until the next move
 C05_Load == Judged /\ (Op("LOAD") \/ Op("RELOAD") \/ Op("MAP")) =>
@@ -74,6 +77,7 @@ C06_Ctl   == Judged /\ (Op("CATCH") \/ Op("CROAK")) =>
               /\ FlagProj(Step.s) = FlagProj(Post)
               /\ (~Ev.last => Step.s.code = Post.code)
               /\ (Ev.last <=> Step.done)
+              /\ Step.s.bad = "" /\ Step.s.ext = <<>>          \* the code fetched is that of the node the move reached
 C06_Blocked == IsInstr /\ ~Running /\ ~Ev.panic => /\ Ev.ext = <<>> /\ Ev.last
                                       /\ NavProj(Post) = NavProj(Pre) /\ CacheProj(Post) = CacheProj(Pre)
                                       /\ FlagProj(Post) = FlagProj(Pre)
@@ -111,6 +115,10 @@ RJudged == IsReq /\ ~RQ.panic /\ Ev.panic = ""
 Refused == Ev.incls # "ok"
 PersProj(s) == [nav |-> NavProj(s), flags |-> s.flags, cache |-> CacheProj(s), lang |-> s.lang]
 ClientFlags(s) == {f \in s.flags : f >= 8}
+
+\* ---- C03 at the client: the catch page shows the invalid-input message with that input
+C03_MessageShown == IsReq /\ Ev.panic = "" /\ Ev.post.havevm /\ RPost.errp.cls = "invalid" /\ Ev.flushed /\ ~Ev.ferr /\ Ev.outlen > 0 =>
+                       Ev.outerr = RPost.errp
 
 \* ---- C17: refused input has no effect
 C17_Refused == IsReq /\ Refused =>
